@@ -54,6 +54,14 @@ fn get_booth_index(window_index: usize, window_size: usize, el: &[u8]) -> i32 {
     }
 }
 
+/// Verification hook H5: exposes the private [`get_booth_index`] unchanged so
+/// that an out-of-tree model-checking harness can call it. Add-only, compiled
+/// only with the `verif-hooks` feature.
+#[cfg(feature = "verif-hooks")]
+pub fn verif_get_booth_index(window_index: usize, window_size: usize, el: &[u8]) -> i32 {
+    get_booth_index(window_index, window_size, el)
+}
+
 /// Batch addition.
 fn batch_add<C: CurveAffine>(
     size: usize,
